@@ -48,6 +48,15 @@ CHECKS.update({
    design_ref="DESIGN.md §3 C11"),
 })
 
+CHECKS.update({
+ "C08": dict(
+   category="exploration",
+   text="(a) the real Http1Codec::listen over an in-memory transport fed in segments under the paused clock: 26 heads (valid, near-miss invalid, over the size / header-count limits) x every 1-cut, every 2-cut (heads <= 120/400 bytes), seeded 2/3-cuts, byte-at-a-time, gaps 0 / 1 ms / 10 s, plus truncated-head-then-EOF; oracle: same request as the unsegmented delivery (metamorphic), valid heads recognised, invalid/over-limit rejected with <= 4 KiB pulled, listen() returns once the last byte is delivered, and the loop never iterates 10000 times (hook H4) without the transport being polled (probe). (b) CONNECT + position-coded payloads up to 200 KB in seeded segments through the real Tunnel/HttpDownstream/DuplexPipe to an echoing peer, either side closing first: exactly one well-formed 200 head, byte-exact relay both ways.",
+   note="Trusted: tokio duplex pipe + paused clock as the transport; hook H4 (one tick per loop iteration) and the transport probe. Heads with exactly 32 headers, LF-only line ends and Expect are EITHER.",
+   technique="runtime monitoring: metamorphic segmentation oracle + logical busy-loop detector (loop-tick hook vs transport probe) on the real codec under a virtual clock",
+   design_ref="DESIGN.md §3 C08"),
+})
+
 NOT_YET = "check not built yet in this session (designed in DESIGN.md §3; harness work in progress)"
 
 def main():
